@@ -2,7 +2,7 @@
 import re
 
 from analysis import (Prov, Guards, fmt, fmt_short, walk, roots, short, comparison, find_calls, callee_matches,
-                      must_pass, writes_into, aliases_of, linear, normalised_cmp, const_int_of, cmp_intervals, propagate)
+                      must_pass, writes_into, aliases_of, linear, normalised_cmp, const_int_of, cmp_intervals, propagate, test_edges, emptiness_test)
 from facts import AnchorError, strip_closure
 from harness import Rule, guarded
 import c13
@@ -79,6 +79,17 @@ def r1(ctx):
             a1, a2 = fmt_short(p.operand(t.args[1])), fmt_short(p.operand(t.args[2]))
             rule.check(a1 == "distances" and a2 == "self.config.max_nodes_response", "nodes_by_distances(distances, config.max_nodes_response)", "served|table-args",
                        "send_nodes_response asks the table for (%s, %s)" % (a1, a2), loc=b.loc(t.line))
+    # the table is consulted whenever a distance other than 0 is requested, whether or not 0 is requested too: the lookup is skipped only
+    # past an emptiness test of the remaining distances, on every path from the entry (through the own-record arm as well)
+    nbd = [bi for bi, t in b.calls() if short(t.callee() or "").endswith("KBucketsTable::nodes_by_distances")]
+    empty_edges = test_edges(g, emptiness_test, lambda x: "distances" in fmt_short(x), want=True)
+    okt = bool(nbd) and bool(empty_edges)
+    if okt:
+        rr = b.reachable(0, removed_blocks=nbd, removed_edges=empty_edges)
+        okt = not any(x in rr for x in b.return_blocks())
+    rule.check(okt, "the table lookup is skipped only when no distance (other than 0) remains", "served|table-skipped",
+               "send_nodes_response can answer without consulting the table although distances other than 0 were requested (e.g. when 0 is requested as well): the "
+               "answer is not the table's entries at the requested distances", loc=b.loc(b.line))
     if tbl:
         src = tbl[0][1][0]
         fm = [x for x in walk(src) if x[0] == "call" and short(x[1]).endswith("Iterator::filter_map")]
